@@ -23,6 +23,10 @@ CHECKS = {}  # filled from sim/props/*.py that exist and are listed in ENABLED
 ENABLED = json.load(open(os.path.join(HERE, "bin", "enabled.json")))
 
 TEXT = {
+    "C14": ("exploration",
+            "Seeded exploration of directory layouts of config files (0-3 levels + sibling, both file names, a directory named like a config, $HOME / $XDG_CONFIG_HOME / HOME unset), 60 options incl. deprecated aliases, CLI override subsets and input orders. Differential oracles on the real binary: each probe's bytes and --print-config dump in the discovered, multi-file invocation equal those of a fresh single-file run handed the reference model's effective options explicitly (in a file, and all on the command line); dump fixpoint; widths vs max_width; unreadable candidate is an error (injected errno); three hash seeds per world.",
+            "Trusts the 40-line reference model of discovery/precedence (documented rules), that a rejected reference run means 'skip', and the sealing of the world by the interposer (config probes outside the world answer ENOENT).",
+            "deterministic simulation: model-based differential testing of the real binary over simulated fs/env/hash seed", "s4 C14"),
     "C06": ("exploration",
             "Seeded exploration: per world the whole emit-mode matrix (11 modes x path/stdin) and four check/format histories run as real processes on fresh copies of the same tree, with short writes/EINTR on stdout and short reads on stdin; the recorded histories are related to each other: read-only modes perform no mutating libc call, --check exit status vs the set files mode rewrites, byte equality of stdout / files / stdin text, and reconstruction of that text from the json, diff, modified-lines and checkstyle reports.",
             "Trusts the interposer's view of mutating calls (plus an independent before/after snapshot), the `diff` crate's line model for report reconstruction, and forced-off colour.",
